@@ -103,6 +103,8 @@ def State.gateReady (s : State) (g : Nat) (op : Nat) : Bool :=
 def JobKind.res : JobKind → Option Nat
   | .fut _ _ r => some r
   | .after _ _ r => some r
+  | .slot _ r => some r
+  | .susp _ _ _ r => some r
   | _ => none
 
 def JobKind.op : JobKind → Option Nat
@@ -112,6 +114,7 @@ def JobKind.op : JobKind → Option Nat
   | .erasedBg _ (.user op) => some op
   | .fut op _ _ => some op
   | .after op _ _ => some op
+  | .susp op _ _ _ => some op
   | _ => none
 
 /-- the job that carries operation `op`, if it has been queued already -/
@@ -125,6 +128,29 @@ def State.futOf (s : State) (op : Nat) : Option Nat := (s.opFut.find? (fun p => 
 def bodyOp : Body → Nat
   | .user op => op
   | .take _ => 0
+  | .free _ => 0
+
+def State.sfOf (s : State) (op : Nat) : Option Nat := (s.opSf.find? (fun p => p.1 == op)).map (·.2)
+
+/-- is `op` a suspend request (its job is the suspend job)? -/
+def State.isSuspendOp (s : State) (op : Nat) : Bool :=
+  match s.jobOfOp op with
+  | some j => (match s.jobs[j]? with
+    | some jb => (match jb.kind with | .susp _ _ _ _ => true | _ => false)
+    | none => false)
+  | none => false
+
+/-- has the completion channel of SyncFuture `u` been signalled (value sent or sender dropped)? -/
+def State.sfDone (s : State) (u : Nat) : Bool :=
+  match s.sfs[u]? with
+  | some sf => sf.doneSent
+  | none => true
+
+/-- the SyncFuture whose user operation is `op` -/
+def State.sfOfUserOp (s : State) (op : Nat) : Option Nat :=
+  (List.range s.sfs.length).find? (fun u => match s.sfs[u]? with
+    | some sf => sf.op == op
+    | none => false)
 
 /-- `dequeue`: pop the front job if the state allows it -/
 def State.dequeue (s : State) (q a : Nat) : State × Option Nat :=
@@ -171,6 +197,7 @@ def stepAct (s : State) (a : Nat) : Option (State × Obs) :=
   | .ret => none                                  -- consumed by the harness `ret` event (see `retStep`)
   | .body _ _ => none                             -- consumed by harness events (`invoke`, `bodyEnd`)
   | .begin (.user op) k => some (s.goto a (.body op k), .beg op)
+  | .begin (.free q) k => some (({ s with dropped := q :: s.dropped }).goto a k, .free q)
   | .begin (.take f) k =>
       match s.futs[f]? with
       | some fu =>
@@ -219,7 +246,7 @@ def stepAct (s : State) (a : Nat) : Option (State × Obs) :=
       if s.threadsLock.isSome then none else
       if spawnAllowed s.threadsVec.length m then
         let p := s.pthreads.length
-        let newAct : Act := { thread := 1000 + p, pc := .ptRecv p, parent := none, child := none, woken := false, result := none }
+        let newAct : Act := { thread := 1000 + p, pc := .ptRecv p, parent := none, child := none, woken := false, result := none, mode := .await, once := false }
         let newPt : PThr := { busy := false, busyLock := none, mailbox := 0, hungUp := false, exited := false }
         let s1 := { s with pthreads := s.pthreads ++ [newPt],
                            threadsVec := s.threadsVec ++ [p], threadsLock := some a, acts := s.acts ++ [newAct] }
@@ -267,7 +294,17 @@ def stepAct (s : State) (a : Nat) : Option (State × Obs) :=
         | o :: rest =>
           let s0 := s.setGate g { gt with waiting := rest }
           match s.jobOfOp o with
-          | none => some (s0.goto a (.openSend g k), .gateSend g)
+          | none =>
+            match s.sfOfUserOp o with
+            | none => some (s0.goto a (.openSend g k), .gateSend g)
+            | some u =>
+              match s.sfs[u]? with
+              | none => none
+              | some sf =>
+                let s1 := s0.setSf u { sf with userReg := none }
+                match sf.userReg with
+                | some w => some (s1.goto a (.waking [w] (.openSend g k)), .gateSend g)
+                | none => some (s1.goto a (.openSend g k), .gateSend g)
           | some j =>
             match s.jobs[j]? with
             | none => none
@@ -456,6 +493,42 @@ def stepAct (s : State) (a : Nat) : Option (State × Obs) :=
               | none => s1
             some (s2.goto a (.jobAwait j c k), .beg op)
         | .after _ _ _ => some (s.goto a (.jobAwait j c k), .silent)
+        | .slot u _ =>
+          if jb.begun then some (s.goto a (.jobAwait j c k), .silent)
+          else
+            -- first poll: queue_ready.send(()) wakes the SyncFuture's task if it is waiting for its slot
+            match s.sfs[u]? with
+            | none => none
+            | some sf =>
+              let s1 := (s.setJob j { jb with begun := true }).setSf u { sf with readySent := true, readyWaker := none }
+              match sf.readyWaker with
+              | some w => some (s1.goto a (.waking [w] (.jobAwait j c k)), .silent)
+              | none => some (s1.goto a (.jobAwait j c k), .silent)
+        | .susp _ _ _ _ =>
+          if jb.begun then some (s.goto a (.jobAwait j c k), .silent)
+          else some ((s.setJob j { jb with begun := true }).goto a (.suspSignal j c k), .silent)
+  | .suspSignal j c k =>
+      -- the suspend job hands the resumer to the caller: signal(finished_suspending)
+      match s.jobs[j]? with
+      | none => none
+      | some jb =>
+        match jb.kind with
+        | .susp _ _ fs _ =>
+          match s.futs[fs]? with
+          | none => none
+          | some fu =>
+            let s1 := s.setFut fs { fu with res := .ok, waker := none }
+            match fu.waker with
+            | some w => some (s1.goto a (.waking [w] (.suspSigDrop j c k)), .csR fs)
+            | none => some (s1.goto a (.suspSigDrop j c k), .csR fs)
+        | _ => none
+  | .suspSigDrop j c k =>
+      match s.jobs[j]? with
+      | none => none
+      | some jb =>
+        match jb.kind with
+        | .susp _ _ fs _ => some (s.goto a (.jobAwait j c k), .csR fs)
+        | _ => none
   | .jobAwait j c k =>
       match s.jobs[j]? with
       | none => none
@@ -464,12 +537,22 @@ def stepAct (s : State) (a : Nat) : Option (State × Obs) :=
           | .fut op (some g) _ => s.gateReady g op
           | .fut _ none _ => true
           | .after op g _ => s.gateReady g op
+          | .susp op g _ _ => s.gateReady g op
+          | .slot u _ => s.sfDone u
           | _ => true
         if ready then
           match jb.kind with
           | .after op _ _ => some (s.goto a (.begin (.user op) (.jobBodyDone j c k)), .silent)
+          | .slot _ _ => some (s.goto a (.jobSignal j c k), .silent)
+          | .susp _ _ _ _ => some (s.goto a (.jobSignal j c k), .silent)
           | _ => some (s.goto a (.jobEnd j c k), .silent)
-        else some ((s.setJob j { jb with reg := some (ctxWaker t c) }).goto a (ctxPending j k c), .silent)
+        else
+          match jb.kind with
+          | .slot u _ =>
+            (match s.sfs[u]? with
+             | some sf => some ((s.setSf u { sf with doneWaker := some (ctxWaker t c) }).goto a (ctxPending j k c), .silent)
+             | none => none)
+          | _ => some ((s.setJob j { jb with reg := some (ctxWaker t c) }).goto a (ctxPending j k c), .silent)
   | .jobBodyDone j c k =>
       match s.jobs[j]? with
       | none => none
@@ -495,7 +578,7 @@ def stepAct (s : State) (a : Nat) : Option (State × Obs) :=
           match s.futs[r]? with
           | none => none
           | some fu =>
-            let s1 := s.setFut r { fu with res := .ok, waker := none }
+            let s1 := (s.setJob j { jb with ended := true }).setFut r { fu with res := .ok, waker := none }
             match fu.waker with
             | some w => some (s1.goto a (.waking [w] (.jobSigDrop j c k)), .csR r)
             | none => some (s1.goto a (.jobSigDrop j c k), .csR r)
@@ -597,14 +680,14 @@ def stepAct (s : State) (a : Nat) : Option (State × Obs) :=
       | none => none
       | some fu =>
         if fu.res == .ok || fu.res == .canceled then
-          some ((s.setFut f { fu with res := .returned }).setAct a { act with pc := .ret, result := some (if fu.res == .ok then 0 else 2) }, .csR f)
+          some ((s.setFut f { fu with res := .returned }).setAct a { act with pc := .pollReady f, result := some (if fu.res == .ok then 0 else 2) }, .csR f)
         else
           match s.qs[fu.q]? with
           | none => none
           | some v =>
             let r := pollDecide f v.state
             let s1 := s.setQ fu.q { v with state := r.1 }
-            if r.2.1 = .wait then some (s1.goto a (.pfPollRel f (.pfBlocked f)), .csQ fu.q)
+            if r.2.1 = .wait then some (s1.goto a (.pfPollRel f (.pollPending f)), .csQ fu.q)
             else if r.2.1 = .drain then some ((s1.setHolder fu.q (some a)).goto a (.pfPollRel f (.dqCheck f fu.q)), .csQ fu.q)
             else some (s1.goto a (.pfPollRel f .panicked), .csQ fu.q)
   | .pfPollRel f next =>
@@ -616,6 +699,96 @@ def stepAct (s : State) (a : Nat) : Option (State × Obs) :=
         some (s1.goto a next, .csR f)
   | .pfBlocked f =>
       if s.taskWoken.contains t then some (({ s with taskWoken := s.taskWoken.filter (· != t) }).goto a (.pfPoll f), .silent) else none
+  | .pollReady _ =>
+      match act.mode with
+      | .await => some (s.goto a .ret, .silent)
+      | .sfQueue u => some (s.goto a (.sfRecv u), .silent)
+      | .sfSched u =>
+        match s.sfs[u]? with
+        | none => none
+        | some sf => some ((s.setSf u { sf with stage := .completed }).setAct a { act with pc := .ret, result := some 0 }, .silent)
+  | .pollPending f =>
+      match act.mode with
+      | .await =>
+        if act.once then some (s.setAct a { act with pc := .ret, result := some 3 }, .silent)
+        else some (s.goto a (.pfBlocked f), .silent)
+      | .sfQueue u => some (s.goto a (.sfRecv u), .silent)
+      | .sfSched u => some (s.goto a (.sfBlocked u), .silent)
+  -- ---------------------------------------------------------------- SyncFuture (future_sync)
+  | .sfPoll u =>
+      match s.sfs[u]? with
+      | none => none
+      | some sf =>
+        match sf.stage with
+        | .waitingForQueue => some (s.setAct a { act with pc := .pfPoll sf.f, mode := .sfQueue u }, .silent)
+        | .waitingForFuture => some (s.goto a (.sfUser u), .silent)
+        | .waitingForScheduler => some (s.setAct a { act with pc := .pfPoll sf.f, mode := .sfSched u }, .silent)
+        | .completed => some (s.setAct a { act with pc := .ret, result := some 2 }, .silent)
+  | .sfRecv u =>
+      match s.sfs[u]? with
+      | none => none
+      | some sf =>
+        if sf.readySent then
+          -- the slot has been reached: the user's closure is invoked and its future created
+          let s1 := s.setSf u { sf with stage := .waitingForFuture, userBegun := true }
+          let s2 := match sf.gate with
+            | some g => (match s1.gates[g]? with
+              | some gt => if gt.isOpen then s1 else s1.setGate g { gt with waiting := gt.waiting ++ [sf.op] }
+              | none => s1)
+            | none => s1
+          some (s2.goto a (.sfUser u), .beg sf.op)
+        else some ((s.setSf u { sf with readyWaker := some (.task t) }).goto a (.sfBlocked u), .silent)
+  | .sfUser u =>
+      match s.sfs[u]? with
+      | none => none
+      | some sf =>
+        let ready := match sf.gate with | some g => s.gateReady g sf.op | none => true
+        if ready then some ((s.setSf u { sf with userEnded := true }).goto a (.sfFinish u), .end_ sf.op)
+        else some ((s.setSf u { sf with userReg := some (.task t) }).goto a (.sfBlocked u), .silent)
+  | .sfFinish u =>
+      match s.sfs[u]? with
+      | none => none
+      | some sf =>
+        let s1 := s.setSf u { sf with doneSent := true, doneWaker := none, stage := .waitingForScheduler }
+        match sf.doneWaker with
+        | some w => some (s1.goto a (.waking [w] (.sfPoll u)), .silent)
+        | none => some (s1.goto a (.sfPoll u), .silent)
+  | .sfBlocked u =>
+      if act.once then some (s.setAct a { act with pc := .ret, result := some 3 }, .silent) else
+      if s.taskWoken.contains t then some (({ s with taskWoken := s.taskWoken.filter (· != t) }).goto a (.sfPoll u), .silent) else none
+  | .sfDrop u =>
+      match s.sfs[u]? with
+      | none => none
+      | some sf =>
+        -- the state field goes first: the queue_ready receiver (with the waker registered on it) or the user future
+        -- (with the waker it registered with its gate) is destroyed
+        if sf.userBegun && !sf.userEnded then some ((s.setSf u { sf with userEnded := true, userReg := none, readyWaker := none }).goto a (.sfDropDone u), .cancel sf.op)
+        else some ((s.setSf u { sf with userReg := none, readyWaker := none }).goto a (.sfDropDone u), .silent)
+  | .sfDropDone u =>
+      match s.sfs[u]? with
+      | none => none
+      | some sf =>
+        let s1 := s.setSf u { sf with doneSent := true, doneWaker := none, stage := .completed }
+        match sf.doneWaker with
+        | some w => some (s1.goto a (.waking [w] .ret), .silent)
+        | none => some (s1.goto a .ret, .silent)
+  | .resumeSend op k =>
+      match s.jobOfOp op with
+      | none => none
+      | some j =>
+        match s.jobs[j]? with
+        | none => none
+        | some jb =>
+          match jb.kind with
+          | .susp _ g _ _ =>
+            (match s.gates[g]? with
+             | none => none
+             | some gt =>
+               let s1 := (s.setGate g { gt with isOpen := true, waiting := [] }).setJob j { jb with reg := none }
+               match jb.reg with
+               | some w => some (s1.goto a (.waking [w] k), .resumeSend op)
+               | none => some (s1.goto a k, .resumeSend op))
+          | _ => none
   | .dqCheck f q =>
       match s.futs[f]? with
       | none => none
@@ -640,7 +813,7 @@ def stepAct (s : State) (a : Nat) : Option (State × Obs) :=
           some ((s.setFut f { fu with res := .returned }).setAct a { act with pc := .dqSetWfw f l q, result := some (if fu.res == .ok then 0 else 2) }, .csR f)
         else some (s.goto a (.dqStore f l q), .csR f)
   | .dqSetWfw f l q =>
-      some (((s.setQState q .waitingForWake).setHolder q none).goto a (.dqWakeWith f l (.queue q) .ret), .csQ q)
+      some (((s.setQState q .waitingForWake).setHolder q none).goto a (.dqWakeWith f l (.queue q) (.pollReady f)), .csQ q)
   | .dqStore f l q =>
       match s.futs[f]? with
       | none => none
@@ -648,7 +821,7 @@ def stepAct (s : State) (a : Nat) : Option (State × Obs) :=
   | .dqSetWfp f l q =>
       let d := s.doubles.length
       let s1 := { s with doubles := s.doubles ++ [some (Waker.queue q, Waker.task t)] }
-      some (((s1.setQState q (.waitingForPoll f)).setHolder q none).goto a (.dqWakeWith f l (.double d) (.pfBlocked f)), .csQ q)
+      some (((s1.setQState q (.waitingForPoll f)).setHolder q none).goto a (.dqWakeWith f l (.double d) (.pollPending f)), .csQ q)
   | .dqWakeWith _ l w k =>
       match s.latches[l]? with
       | none => none
@@ -660,8 +833,8 @@ def stepAct (s : State) (a : Nat) : Option (State × Obs) :=
       match s.futs[f]? with
       | none => none
       | some fu => some ((s.setFut f { fu with waker := some (.task t) }).goto a (.dqIdle2 f q), .csR f)
-  | .dqIdle2 f q => some (((s.setQState q .idle).setHolder q none).goto a (.rqCs q (.pfBlocked f)), .csQ q)
-  | .dqIdle _ q => some (((s.setQState q .idle).setHolder q none).goto a (.rqCs q .ret), .csQ q)
+  | .dqIdle2 f q => some (((s.setQState q .idle).setHolder q none).goto a (.rqCs q (.pollPending f)), .csQ q)
+  | .dqIdle f q => some (((s.setQState q .idle).setHolder q none).goto a (.rqCs q (.pollReady f)), .csQ q)
   | .fsTake f =>
       match s.futs[f]? with
       | none => none
@@ -704,9 +877,9 @@ def State.leafOf (s : State) (t : Nat) : Option Nat :=
 
 /-- Append a new activity (a call made by thread `t`, from inside the closure body of `parent` if
 any) at program counter `pc`; returns the new state and the activity's id. -/
-def addAct (s : State) (t : Nat) (parent : Option Nat) (pc : Pc) : State × Nat :=
+def addAct (s : State) (t : Nat) (parent : Option Nat) (pc : Pc) (once : Bool := false) : State × Nat :=
   let a := s.acts.length
-  let newAct : Act := { thread := t, pc := pc, parent := parent, child := none, woken := false, result := none }
+  let newAct : Act := { thread := t, pc := pc, parent := parent, child := none, woken := false, result := none, mode := .await, once := once }
   let s1 : State := { s with acts := s.acts ++ [newAct], nextOp := s.nextOp + 1 }
   match parent with
   | some p =>
@@ -737,11 +910,37 @@ def invoke (s : State) (t : Nat) (parent : Option Nat) (c : Call) : Option (Stat
       some (addAct s2 t parent (.dsPush q (.after op gate f)))
   | .await o => match s.futOf o with
       | some f => some (addAct s t parent (.pfPoll f))
-      | none => none
+      | none => match s.sfOf o with
+        | some u => some (addAct s t parent (.sfPoll u))
+        | none => none
+  | .pollOnce o => match s.futOf o with
+      | some f => some (addAct s t parent (.pfPoll f) true)
+      | none => match s.sfOf o with
+        | some u => some (addAct s t parent (.sfPoll u) true)
+        | none => none
+  | .fsync q gate =>
+      let f := s.futs.length
+      let u := s.sfs.length
+      let sf : SyncFut := { f := f, q := q, op := op, gate := gate, stage := .waitingForQueue, readySent := false, readyWaker := none,
+                            doneSent := false, doneWaker := none, userBegun := false, userEnded := false, userReg := none }
+      let s1 := { s with futs := s.futs ++ [({ q := q, res := .none, waker := none } : Fut)], sfs := s.sfs ++ [sf], opSf := (op, u) :: s.opSf }
+      some (addAct s1 t parent (.dsPush q (.slot u f)))
+  | .suspend q =>
+      let fs := s.futs.length
+      let g := s.gates.length
+      let s1 := { s with futs := s.futs ++ [({ q := q, res := .none, waker := none } : Fut), ({ q := q, res := .none, waker := none } : Fut)],
+                         gates := s.gates ++ [({ isOpen := false, waiting := [op] } : Gate)], opFut := (op, fs) :: s.opFut }
+      some (addAct s1 t parent (.dsPush q (.susp op g fs (fs + 1))))
+  | .resume o => some (addAct s t parent (.resumeSend o .ret))
+  | .dropObj q => some (addAct s t parent (.syDecide q (.free q)))
   | .syncf o => match s.futOf o with
       | some f => some (addAct s t parent (.fsTake f))
       | none => none
-  | .dropf _ => some (addAct s t parent .ret)
+  | .dropf o => match s.sfOf o with
+      | some u => some (addAct s t parent (.sfDrop u))
+      | none =>
+        -- dropping the resumer obtained from a suspend future resumes the queue (the oneshot is cancelled)
+        if s.isSuspendOp o then some (addAct s t parent (.resumeSend o .ret)) else some (addAct s t parent .ret)
   | .openGate g =>
       match s.gates[g]? with
       | some gt => some (addAct (s.setGate g { gt with isOpen := true }) t parent (.openSend g .ret))
@@ -791,6 +990,7 @@ def spuriousPoll (s : State) (a : Nat) : Option State :=
   | some act =>
     match act.pc with
     | .pfBlocked f => some (s.goto a (.pfPoll f))
+    | .sfBlocked u => some (s.goto a (.sfPoll u))
     | _ => none
   | none => none
 
